@@ -24,7 +24,7 @@ from typing import (
 from ._missing import MISSING, MaybeMissing
 from .exceptions import EvaluationError, InsufficientInformationError
 from .option import Option
-from .types import Evaluatable, MaybeEvaluatable, Options
+from .types import Evaluatable, MaybeEvaluatable, Options, _present_keys
 
 A = TypeVar("A")
 B = TypeVar("B")
@@ -72,6 +72,16 @@ class _DependsOn(Generic[A, B], Evaluatable[B]):
 
     def __repr__(self) -> str:
         return f"_DependsOn({self.evaluatable!r}, {self.depends!r})"  # pragma: no cover
+
+
+class _FallbackFrom(_DependsOn[A, B]):
+    """The evaluatable chosen because :code:`depends` could not be evaluated."""
+
+    def keys(self, options: Options) -> Set[str]:
+        return self.evaluatable.keys(options) | _present_keys(self.depends, options)
+
+    def explain(self, options: Optional[Options] = None) -> Set[str]:
+        return self.evaluatable.explain(options)
 
 
 class Switch(Evaluatable[V]):
@@ -139,7 +149,7 @@ class Switch(Evaluatable[V]):
         except EvaluationError as e:
             if self.default is MISSING:
                 raise e
-            return self.default
+            return _FallbackFrom(self.default, self.dispatch)
 
         if key not in self.lookup:
             if self.default is MISSING:
